@@ -42,6 +42,15 @@ Definition R_CHAIN : N := 6%N.    (* not a snapshot chain: first min <> 1 or non
 Definition R_VERIFY : N := 7%N.   (* structure or checksum of an input (decoder Close) *)
 Definition R_INTEG : N := 8%N.    (* post-restore integrity check *)
 
+(** what [checkIntegrity] (PRAGMA quick_check / integrity_check on the restored
+    file) can come back with *)
+Inductive ires :=
+| IOk          (* a single row "ok" *)
+| IRows        (* the PRAGMA ran and reported corruption as rows: "integrity check failed: ..." *)
+| IStmtErr.    (* the statement itself failed: SQLITE_CORRUPT "database disk image is malformed",
+                  SQLITE_NOTADB, or the context was cancelled: "integrity check: ..." *)
+Definition ires_ok (r : ires) : bool := match r with IOk => true | _ => false end.
+
 Section Restore.
 Context {B : Type}.
 Variable H : list B -> N.              (* CRC-64/ISO of the hashed stream *)
@@ -88,7 +97,7 @@ Fixpoint fetch_all (fs : list pinfo) : option (list (list B)) :=
   end.
 
 Definition restore (out_exists : bool) (plan : option (list pinfo))
-           (integ : bool) (integ_ok : list B -> bool) : rresult * list fsop :=
+           (integ : bool) (integ_res : list B -> ires) (cancelled : bool) : rresult * list fsop :=
   (* if _, err := os.Stat(opt.OutputPath); err == nil { return "output path already exists" } *)
   if out_exists then (RErr R_EXISTS, [StatOut]) else
   (* infos, err := CalcRestorePlan(...) *)
@@ -112,9 +121,15 @@ Definition restore (out_exists : bool) (plan : option (list pinfo))
               else
                 let img := image bs in
                 let publish := [StatOut; CreateTmp; WriteTmp true; FsyncTmp; CloseTmp; RenameTmpOut; FsyncDir] in
-                (* if opt.IntegrityCheck != IntegrityCheckNone { if err := checkIntegrity(...) { remove ...} } *)
-                if integ && negb (integ_ok img)
-                then (RErr R_INTEG, publish ++ [RemoveOut; RemoveShm; RemoveWal; RemoveTmp])
+                (* if opt.IntegrityCheck != IntegrityCheckNone {
+                     if err := checkIntegrity(ctx, opt.OutputPath, mode); err != nil {
+                       if ctx.Err() == nil { os.Remove(out); os.Remove(out-shm); os.Remove(out-wal) }
+                       return err } }
+                   checkIntegrity returns an error both when the PRAGMA reports rows other than
+                   "ok" and when the statement itself fails *)
+                if integ && negb (ires_ok (integ_res img))
+                then (RErr R_INTEG,
+                      publish ++ (if cancelled then [] else [RemoveOut; RemoveShm; RemoveWal]) ++ [RemoveTmp])
                 else (ROk img, publish ++ [RemoveTmp])
           end
       end
@@ -174,8 +189,12 @@ Definition fs_init (out_exists : bool) : fsst :=
 (** What an observer sees after Restore returned, and the discipline as a
     decidable test on it (the harness applies [obs_ok] to the real outcome).
     class: 0 nil | 1 error | anything else (e.g. 7 panic) is never acceptable *)
-Definition obs_ok (pre : bool) (class : N) (out_exists tmp_exists same unchanged side : bool) : bool :=
+Definition obs_ok (pre cancelled : bool) (class : N) (out_exists tmp_exists same unchanged side : bool) : bool :=
   if pre then N.eqb class 1 && out_exists && unchanged && negb tmp_exists
   else if N.eqb class 0 then out_exists && negb tmp_exists && same
-  else if N.eqb class 1 then negb out_exists && negb tmp_exists && negb side
+  else if N.eqb class 1 then
+    (* an error leaves nothing behind; only when the caller's context was cancelled may the
+       (verified, completely published) image stay — the check was interrupted, it did not fail *)
+    if cancelled then negb tmp_exists && (negb out_exists || same)
+    else negb out_exists && negb tmp_exists && negb side
   else false.
